@@ -228,8 +228,8 @@ func (f *btcroot) Gen(r *hx.Run) {
 			emit("duptail", rp)
 		}
 	}
-	for k := 0; k < r.Pick(20, 300); k++ {
-		n := 1 + r.Rng.Intn(r.Pick(3000, 60000))
+	for k := 0; k < r.Pick(20, 120); k++ {
+		n := 1 + r.Rng.Intn(r.Pick(3000, 7000)) // the model's in-place level is quadratic in the driver (List.set): keep sizes moderate
 		hs := make([][]byte, n)
 		for i := range hs {
 			hs[i] = r.Rng.Bytes(32)
